@@ -225,8 +225,22 @@ class MapKV(Obj):
         return NotImplemented
 
     def m_insert_or_assign(self, I, args, n):
-        MapSlot(self, I.ctx.rv(args[0])).assign(I, I.ctx.rv(args[1]))
-        return VOID
+        ctx = I.ctx
+        k, v = ctx.rv(args[0]), ctx.rv(args[1])
+        was = self.has(ctx)[k]
+        MapSlot(self, k).assign(I, v)
+        return Pair(Iter(self, z3.BoolVal(False), k, v), z3.Not(was))
+
+    def m_emplace(self, I, args, n):
+        ctx = I.ctx
+        k, v = ctx.rv(args[0]), ctx.rv(args[1])
+        was = self.has(ctx)[k]
+        old = self.val(ctx)[k]
+        ctx.write(Loc((self.oid, "has")), z3.Store(self.has(ctx), k, True))
+        ctx.write(Loc((self.oid, "val")), z3.Store(self.val(ctx), k, z3.If(was, old, v)))
+        return Pair(Iter(self, z3.BoolVal(False), k, z3.If(was, old, v)), z3.Not(was))
+
+    m_try_emplace = m_emplace
 
     def m_at(self, I, args, n):
         ctx = I.ctx
